@@ -2,20 +2,32 @@
 
 Coq side: coq/Grad.v (dual numbers as a Num instance + is_derive theorems, chain rule through stitching, derivative
 formulas of the log-density terms, exact gradient of twice_nll for the restricted family by evaluating the rate model
-of coq/FitRate.v at Qc dual numbers).  The harness diffs that exact rational gradient with
-shim(..., do_grad=True)['func'](pars) on jax / pytorch / tensorflow, stitched or not."""
+of coq/FitRate.v at Qc dual numbers) and coq/GradInterp.v (derivative of every interpolation code in every regime and on
+the breakpoints, one-sided derivatives at the kinks of codes 0/1, product/sum rule for cells with histosys and normsys
+pieces, gradient of 2*nll for models with normsys factors: xgrad).  The harness diffs
+shim(..., do_grad=True)['func'](pars) on jax / pytorch / tensorflow, stitched or not, with
+  * the exact rational gradient (Qc duals, Grad.model_grad) for models without transcendental pieces, and
+  * for models with normsys factors (interpolation codes 1 and 4) a 40-digit reference that is certified against the real
+    instance of the Coq model by `interval` goals  |GradInterp.xgrad M x j - reference| <= 1e-10 * scale.
+At the genuine kinks (code0 / code1 at alpha = 0) the demanded number is the one-sided derivative of the branch the
+comparison `alpha > 0` selects there, i.e. the LEFT derivative (GradInterp.*_left_derivative)."""
 import copy
 import json
 import math
+import os
+import threading
+from concurrent.futures import ThreadPoolExecutor
 from fractions import Fraction
 
-from harness import core
+from harness import core, facts
 from harness.props import c05
 
 GRAD_RTOL = 1e-7
 VALUE_RTOL = 1e-10
+CERT_RTOL = 1e-10          # |Coq model - reference| certified by interval, relative to the gradient scale
 BACKENDS = ['jax', 'pytorch', 'tensorflow']
 CODES = {'code0': 'Code0', 'code2': 'Code2', 'code4p': 'Code4p'}
+NCODES = {'code1': 'NCode1', 'code4': '(NCode4 1)'}      # pyhf builds code4 with its default alpha0 = 1
 
 
 # ----------------------------------------------------------------------------------------------
@@ -71,17 +83,106 @@ def gen_spec(rng):
     return spec, code
 
 
-def build_pdf(spec, code):
+def gen_spec_binwise(rng):
+    """POI-less models whose parameters are all bin-wise (shapesys / staterror / shapefactor only): every parameter is read
+    through direct gathers only (main term and constraint term), the case in which autodiff engines may hand back sparse
+    gradients with repeated indices."""
+    nch = rng.choice([1, 1, 2])
+    chans = []
+    for ci in range(nch):
+        nb = rng.choice([1, 2, 3, 4])
+        nsamp = rng.choice([1, 2, 2, 3])
+        samples = []
+        kinds_ch = []
+        for si in range(nsamp):
+            scale = rng.choice([5.0, 20.0, 80.0])
+            nom = [round(scale * rng.uniform(0.5, 2.0), rng.choice([0, 1, 2])) or 1.0 for _ in range(nb)]
+            pool = ['shapesys', 'staterror', 'staterror'] + ([] if 'shapefactor' in kinds_ch else ['shapefactor'])
+            mods = []
+            for kind in rng.sample(pool, rng.choice([1, 1, 2])):
+                if any(m['type'] == kind for m in mods):
+                    continue
+                kinds_ch.append(kind)
+                if kind == 'shapefactor':
+                    mods.append({'name': 'sf_%d' % ci, 'type': 'shapefactor', 'data': None})
+                elif kind == 'shapesys':
+                    mods.append({'name': 'unc_%d_%d' % (ci, si), 'type': 'shapesys', 'data': [round(v * rng.uniform(0.05, 0.4), 3) or 0.5 for v in nom]})
+                else:
+                    mods.append({'name': 'stat_%d' % ci, 'type': 'staterror', 'data': [round(v * rng.uniform(0.03, 0.3), 3) or 0.25 for v in nom]})
+            samples.append({'name': 's%d_%d' % (ci, si), 'data': nom, 'modifiers': mods})
+        chans.append({'name': 'ch%d' % ci, 'samples': samples})
+    return {'channels': chans}, 'code0'
+
+
+def gen_spec_ns(rng, ncode):
+    """models with normsys factors (interpolation code `ncode` in {code1, code4}) next to normfactor / histosys / shapesys /
+    staterror / lumi: 1-2 channels, 1-3 bins, 2-3 samples; normsys names are shared between samples with different lo / hi"""
+    nch = rng.choice([1, 1, 2])
+    code = rng.choice(['code0', 'code2', 'code4p'])
+    use_lumi = rng.random() < 0.25
+    chans = []
+    have_ns = False
+    for ci in range(nch):
+        nb = rng.choice([1, 2, 3])
+        nsamp = rng.choice([2, 2, 3])
+        samples = []
+        for si in range(nsamp):
+            scale = rng.choice([5.0, 20.0, 60.0, 150.0])
+            nom = [round(scale * rng.uniform(0.5, 2.0), rng.choice([0, 1, 2])) or 1.0 for _ in range(nb)]
+            mods = []
+            if si == 0:
+                mods.append({'name': 'mu', 'type': 'normfactor', 'data': None})
+            nns = rng.choice([1, 1, 2]) if (si or not have_ns) else rng.choice([0, 1])
+            for nm in rng.sample(['n0', 'n1', 'n2'], nns):
+                have_ns = True
+                r = rng.random()
+                if r < 0.7:          # the usual case lo < 1 < hi
+                    lo, hi = round(rng.uniform(0.6, 0.98), 3), round(rng.uniform(1.02, 1.5), 3)
+                elif r < 0.85:       # same-side variations (a genuine kink also for the slopes' signs)
+                    lo, hi = round(rng.uniform(1.02, 1.3), 3), round(rng.uniform(1.05, 1.5), 3)
+                else:                # inverted
+                    lo, hi = round(rng.uniform(1.02, 1.4), 3), round(rng.uniform(0.7, 0.98), 3)
+                mods.append({'name': nm, 'type': 'normsys', 'data': {'hi': hi, 'lo': lo}})
+            for kind in rng.sample(['histosys', 'shapesys', 'staterror', 'lumi' if use_lumi else 'histosys', 'normfactor'], rng.choice([0, 1, 1, 2])):
+                if any(m['type'] == kind for m in mods):
+                    continue
+                if kind == 'normfactor':
+                    mods.append({'name': 'k0', 'type': 'normfactor', 'data': None})
+                elif kind == 'shapesys':
+                    mods.append({'name': 'unc_%d_%d' % (ci, si), 'type': 'shapesys', 'data': [round(v * rng.uniform(0.05, 0.4), 3) or 0.5 for v in nom]})
+                elif kind == 'staterror':
+                    mods.append({'name': 'stat_%d' % ci, 'type': 'staterror', 'data': [round(v * rng.uniform(0.03, 0.3), 3) or 0.25 for v in nom]})
+                elif kind == 'lumi':
+                    mods.append({'name': 'lumi', 'type': 'lumi', 'data': None})
+                else:
+                    mods.append({'name': 'h%d' % rng.randrange(2), 'type': 'histosys', 'data': {
+                        'hi_data': [round(v * rng.uniform(1.0, 1.4), 2) for v in nom],
+                        'lo_data': [round(v * rng.uniform(0.6, 1.05), 2) for v in nom]}})
+            names = [m['name'] for m in mods]
+            mods = [m for i, m in enumerate(mods) if m['name'] not in names[:i]]
+            samples.append({'name': 's%d_%d' % (ci, si), 'data': nom, 'modifiers': mods})
+        chans.append({'name': 'ch%d' % ci, 'samples': samples})
+    spec = {'channels': chans}
+    if any(m['type'] == 'lumi' for c in chans for s in c['samples'] for m in s['modifiers']):
+        spec['parameters'] = [{'name': 'lumi', 'auxdata': [1.0], 'sigmas': [rng.choice([0.02, 0.05, 0.1])], 'bounds': [[0.5, 1.5]], 'inits': [1.0]}]
+    return spec, code
+
+
+def build_pdf(spec, code, ncode='code4', poi='mu'):
     import pyhf
-    return pyhf.Model(copy.deepcopy(spec), poi_name='mu', validate=True,
-                      modifier_settings={'normsys': {'interpcode': 'code4'}, 'histosys': {'interpcode': code}})
+    return pyhf.Model(copy.deepcopy(spec), poi_name=poi, validate=True,
+                      modifier_settings={'normsys': {'interpcode': ncode}, 'histosys': {'interpcode': code}})
 
 
-def compile_model(spec, code, pdf):
-    """own rate model: bins -> cells (nominal, histosys pieces, factor indices); constraint terms; auxdata layout"""
+def case_pdf(case):
+    return build_pdf(case['spec'], case['code'], case.get('ncode', 'code4'), case.get('poi', 'mu'))
+
+
+def compile_model(spec, code, pdf, ncode='code4'):
+    """own rate model: bins -> cells (nominal, histosys pieces, factor indices, normsys factors); constraint terms; auxdata layout"""
     cfg = pdf.config
     chans = {c['name']: c for c in spec['channels']}
-    bins, pois, gaus, alphas = [], {}, {}, set()
+    bins, pois, gaus, alphas, nalphas = [], {}, {}, set(), set()
     lumi_sigma = {p['name']: p for p in spec.get('parameters', [])}
     for cname in cfg.channels:
         ch = chans[cname]
@@ -97,7 +198,7 @@ def compile_model(spec, code, pdf):
         for b in range(nb):
             cells = []
             for s in ch['samples']:
-                idx, hs = [], []
+                idx, hs, ns = [], [], []
                 for m in s['modifiers']:
                     sl = cfg.par_slice(m['name'])
                     t = m['type']
@@ -114,9 +215,14 @@ def compile_model(spec, code, pdf):
                         hs.append((code, core.frac(m['data']['lo_data'][b]), core.frac(m['data']['hi_data'][b]), sl.start))
                         gaus[sl.start] = Fraction(1)
                         alphas.add(sl.start)
+                    elif t == 'normsys':
+                        ns.append((ncode, core.frac(m['data']['lo']), core.frac(m['data']['hi']), sl.start))
+                        gaus[sl.start] = Fraction(1)
+                        alphas.add(sl.start)
+                        nalphas.add(sl.start)
                     else:
                         raise ValueError('modifier outside the family: ' + t)
-                cells.append((core.frac(s['data'][b]), hs, idx))
+                cells.append((core.frac(s['data'][b]), hs, idx, ns))
             bins.append(cells)
         for name, st in stat.items():
             sl = cfg.par_slice(name)
@@ -128,7 +234,8 @@ def compile_model(spec, code, pdf):
         for i in range(sl.start, sl.stop):
             aux.append(('pois', i) if i in pois else ('gaus', i))
     assert len(aux) == len(cfg.auxdata), 'auxdata layout'
-    return dict(bins=bins, pois=pois, gaus=gaus, aux=aux, npars=cfg.npars, nmain=len(bins), alphas=sorted(alphas))
+    return dict(bins=bins, pois=pois, gaus=gaus, aux=aux, npars=cfg.npars, nmain=len(bins), alphas=sorted(alphas), nalphas=sorted(nalphas),
+                code=code, ncode=ncode)
 
 
 HEADER = '''From Coq Require Import ZArith QArith Qcanon Bool List.
@@ -144,6 +251,7 @@ Definition run_grad (M : model QcNum) (x : list Qc) :=
 
 def coq_model(cm, data):
     def cell(c):
+        assert not c[3], 'normsys factors are evaluated over R (coq_xmodel)'
         hs = core.clist(c[1], lambda h: '(mkh %s %s %s %d%%nat)' % (CODES[h[0]], core.q(h[1]), core.q(h[2]), h[3]))
         return '(mkcell %s %s %s)' % (core.q(c[0]), hs, core.clist(c[2], lambda i: '%d%%nat' % i))
     bins = core.clist(range(cm['nmain']), lambda b: '(%s, %s)' % (core.q(data[b]), core.clist(cm['bins'][b], cell)))
@@ -155,19 +263,270 @@ def coq_model(cm, data):
 
 
 # ----------------------------------------------------------------------------------------------
+# models with normsys factors: reference by mpmath (proposer), certified against GradInterp.xgrad by interval goals
+def rlit(x):
+    f = core.frac(x)
+    if f.denominator == 1:
+        return '(%d)' % f.numerator
+    return '(%d / %d)' % (f.numerator, f.denominator)
+
+
+XHEADER = '''From Coq Require Import ZArith Reals Lra Bool List.
+From Interval Require Import Tactic.
+Require Import PV.Num PV.TNum PV.InterpFast PV.gen.InterpGen PV.InterpThms PV.FitCert PV.FitRate PV.Grad PV.GradInterp.
+Import ListNotations.
+Local Open Scope R_scope.
+Definition mkh (c : icode) (lo hi : R) (i : nat) : hsys RNum := @Build_hsys RNum c lo hi i.
+Definition mkn (c : ncode) (lo hi : R) (i : nat) : nsys := Build_nsys c lo hi i.
+Definition mkx (nom : R) (hs : list (hsys RNum)) (idx : list nat) (ns : list nsys) : xcell := Build_xcell (@Build_cell RNum nom hs idx) ns.
+(* unfold the model down to + - * / over the literals and the interpolation atoms (delta / ddelta / nfac / dnfac at literals) *)
+Ltac expose := cbv [xgrad xrate_dual ggrad ggrad_main ggrad_pois ggrad_gaus xmodel_g xcell_g gm_bins gm_pois gm_gaus xm_bins xm_pois xm_gaus x_cell x_ns
+   mkh mkn mkx gbin_dual gcell_dual map fold_right hpiece npiece pdual pval pardual dirj par nth c_nom c_hs c_fac g_nom g_add g_fac g_mul
+   p_f p_df p_i h_par n_par Nat.eqb Nat.ltb Nat.leb length d_add d_mul fst snd nadd nmul n0 RNum V]; fold RNum.
+Ltac prep := cbv zeta; rsimp; cmp; cbn [andb]; rpow_res.
+Ltac unf := cbv [delta ddelta dcode0 dcode2 dcode4p nfac dnfac dcode1 dcode4 h_code h_lo h_hi h_par n_code n_lo n_hi n_par two ofnat
+                 Z.of_nat Pos.of_succ_nat Pos.succ slow_code1 slow_code4 c4 dpoly6 bvec A_inverse nth InterpFast.dot InterpFast.dot_from]; prep.
+(* enclose one atom: t = explicit real expression (regime decided by lra on the literals), interval_intro bounds it *)
+Ltac enc t :=
+  let v := fresh "v" in let Ev := fresh "Ev" in let e := fresh "e" in let E := fresh "E" in let H := fresh "H" in
+  remember t as v eqn:Ev;
+  evar (e : R); assert (E : t = e) by (unf; subst e; reflexivity);
+  (let b := eval unfold e in e in interval_intro b with (i_prec 70) as H);
+  unfold e in E; rewrite <- E, <- Ev in H; clear E Ev e.
+Ltac enc_all := repeat match goal with
+  | |- context [nfac ?n ?a] => enc (nfac n a)
+  | |- context [dnfac ?n ?a] => enc (dnfac n a)
+  | |- context [delta RNum ?h ?n ?a] => enc (delta RNum h n a)
+  | |- context [ddelta ?h ?n ?a] => enc (ddelta h n a)
+  end.
+'''
+
+
+def coq_xmodel(cm, data):
+    def cell(c):
+        hs = core.clist(c[1], lambda h: '(mkh %s %s %s %d%%nat)' % (CODES[h[0]], rlit(h[1]), rlit(h[2]), h[3]))
+        ns = core.clist(c[3], lambda n: '(mkn %s %s %s %d%%nat)' % (NCODES[n[0]], rlit(n[1]), rlit(n[2]), n[3]))
+        return '(mkx %s %s %s %s)' % (rlit(c[0]), hs, core.clist(c[2], lambda i: '%d%%nat' % i), ns)
+    bins = core.clist(range(cm['nmain']), lambda b: '(%s, %s)' % (rlit(data[b]), core.clist(cm['bins'][b], cell)))
+    pois = core.clist([(j, i) for j, (k, i) in enumerate(cm['aux']) if k == 'pois'],
+                      lambda t: '(%s, %s, %d%%nat)' % (rlit(data[cm['nmain'] + t[0]]), rlit(cm['pois'][t[1]]), t[1]))
+    gaus = core.clist([(j, i) for j, (k, i) in enumerate(cm['aux']) if k == 'gaus'],
+                      lambda t: '(%s, %s, %d%%nat)' % (rlit(cm['gaus'][t[1]]), rlit(data[cm['nmain'] + t[0]]), t[1]))
+    return '(Build_xmodel %s %s %s)' % (bins, pois, gaus)
+
+
+def _mp():
+    import mpmath
+    mpmath.mp.dps = 45
+    return mpmath
+
+
+def _mpf(fr):
+    mp = _mp()
+    fr = core.frac(fr)
+    return mp.mpf(fr.numerator) / mp.mpf(fr.denominator)
+
+
+def hpiece_exact(code, lo, nom, hi, a):
+    """(value, derivative of the branch selected by the code's comparisons) of a histosys piece, exact rationals"""
+    up, dn = hi - nom, nom - lo
+    if code == 'code0':
+        return (up * a, up) if a > 0 else (dn * a, dn)
+    if code == 'code2':
+        A, B = (hi + lo) / 2 - nom, (hi - lo) / 2
+        if a > 1:
+            return (B + 2 * A) * (a - 1) + (A + B), B + 2 * A
+        if a >= -1:
+            return A * a * a + B * a, 2 * A * a + B
+        return (B - 2 * A) * (a + 1) + (A - B), B - 2 * A
+    S, A = (up + dn) / 2, (up - dn) / 16
+    if a < -1:
+        return dn * a, dn
+    if a > 1:
+        return up * a, up
+    q = a * a
+    return q * (q * (q * 3 - 10) + 15) * A + a * S, S + A * (30 * a - 40 * a ** 3 + 18 * a ** 5)
+
+
+_c4cache = {}
+
+
+def code4_coefficients(lo, hi):
+    """solve the six matching conditions at +-alpha0 = +-1 numerically (independent of pyhf's typed-in inverse matrix)"""
+    mp = _mp()
+    key = (lo, hi)
+    if key not in _c4cache:
+        du, dd = _mpf(hi), _mpf(lo)
+        A = mp.matrix(6, 6)
+        for j in range(6):
+            k = j + 1
+            A[0, j], A[1, j] = 1, (-1) ** k
+            A[2, j], A[3, j] = k, k * (-1) ** (k - 1)
+            A[4, j] = k * (k - 1)
+            A[5, j] = k * (k - 1) * (-1) ** (k - 2) if k >= 2 else 0
+        lu, ld = mp.log(du), mp.log(dd)
+        b = mp.matrix([du - 1, dd - 1, lu * du, -ld * dd, lu ** 2 * du, ld ** 2 * dd])
+        sol = mp.lu_solve(A, b)
+        _c4cache[key] = [sol[j] for j in range(6)]
+    return _c4cache[key]
+
+
+def npiece_mp(ncode, lo, hi, a):
+    """(value, derivative of the selected branch) of a normsys factor on the triple (lo, 1, hi); a is an exact rational"""
+    mp = _mp()
+    du, dd, al = _mpf(hi), _mpf(lo), _mpf(a)
+    if ncode == 'code1':
+        if a > 0:
+            v = du ** al
+            return v, mp.log(du) * v
+        v = dd ** (-al)
+        return v, -mp.log(dd) * v
+    if a >= 1:
+        v = du ** al
+        return v, mp.log(du) * v
+    if a <= -1:
+        v = dd ** (-al)
+        return v, -mp.log(dd) * v
+    c = code4_coefficients(lo, hi)
+    return 1 + sum(c[j] * al ** (j + 1) for j in range(6)), sum((j + 1) * c[j] * al ** j for j in range(6))
+
+
+def reference_gradient(cm, data, x):
+    """40-digit value of (gradient of twice_nll, expected rates) from the piecewise formulas; proposer only: every number used
+    is certified against the Coq model GradInterp.xgrad / xrate_dual by an interval goal"""
+    mp = _mp()
+    xq = [core.frac(v) for v in x]
+    xm = [_mpf(v) for v in xq]
+    n = cm['npars']
+    rates, drates = [], []
+    for cells in cm['bins']:
+        lam, dlam = mp.mpf(0), [mp.mpf(0)] * n
+        for nom, hs, idx, ns in cells:
+            factors = []                 # (value, derivative, parameter index)
+            add, dadd = _mpf(nom), {}
+            for code, lo, hi, i in hs:
+                v, d = hpiece_exact(code, lo, nom, hi, xq[i])
+                add += _mpf(v)
+                dadd[i] = dadd.get(i, mp.mpf(0)) + _mpf(d)
+            for i in idx:
+                factors.append((xm[i], mp.mpf(1), i))
+            for ncode, lo, hi, i in ns:
+                v, d = npiece_mp(ncode, lo, hi, xq[i])
+                factors.append((v, d, i))
+            prod = mp.mpf(1)
+            for v, _, _ in factors:
+                prod *= v
+            lam += add * prod
+            for i, d in dadd.items():
+                dlam[i] = dlam[i] + d * prod
+            for k, (v, d, i) in enumerate(factors):
+                rest = mp.mpf(1)
+                for k2, (v2, _, _) in enumerate(factors):
+                    if k2 != k:
+                        rest *= v2
+                dlam[i] = dlam[i] + add * d * rest
+        rates.append(lam)
+        drates.append(dlam)
+    grad = []
+    for j in range(n):
+        g = mp.mpf(0)
+        for b in range(cm['nmain']):
+            g += (1 - _mpf(data[b]) / rates[b]) * drates[b][j]
+        for t, (kind, i) in enumerate(cm['aux']):
+            if i != j:
+                continue
+            a = _mpf(data[cm['nmain'] + t])
+            if kind == 'pois':
+                tau = _mpf(cm['pois'][i])
+                g += (1 - a / (tau * xm[i])) * tau
+            else:
+                g += _mpf(cm['gaus'][i]) * (xm[i] - a)
+        grad.append(2 * g)
+    return grad, rates
+
+
+def mp_to_frac(r):
+    mp = _mp()
+    return Fraction(mp.nstr(r, 38, strip_zeros=False, min_fixed=0, max_fixed=0))
+
+
+def xgoal(k, case):
+    """Coq text certifying the reference gradient and rates of one case against GradInterp.xgrad / xrate_dual"""
+    cm = case['cm']
+    g, rates = case['ref']
+    scale = max([abs(v) for v in g] + [Fraction(1)])
+    eg = Fraction(CERT_RTOL) * scale
+    parts = ['Rabs (xgrad M_%d x_%d %d%%nat - %s) <= %s' % (k, k, j, rlit(g[j]), rlit(eg)) for j in range(cm['npars'])]
+    parts += ['Rabs (fst (xrate_dual x_%d 0%%nat (snd (nth %d%%nat (xm_bins M_%d) (0, [])))) - %s) <= %s' % (
+        k, b, k, rlit(rates[b]), rlit(Fraction(CERT_RTOL) * max(abs(rates[b]), Fraction(1)))) for b in range(cm['nmain'])]
+    return ('Definition M_%d : xmodel := %s.\nDefinition x_%d : list R := %s.\n'
+            'Goal True.\ntryif (assert (%s) by (unfold M_%d, x_%d; expose; enc_all; repeat split; interval with (i_prec 64)))\n'
+            'then idtac "C13OK %d" else idtac "C13FAIL %d".\nexact I.\nQed.\n' % (
+                k, coq_xmodel(cm, case['data']), k, core.clist(case['x'], rlit), ' /\\ '.join(parts), k, k, k, k))
+
+
+def run_xgoals(ctx, items, jobs):
+    """items: list of (index, case).  Returns dict index -> 'ok' | 'fail' | 'error: ...'"""
+    d = os.path.join(ctx.work, 'xgoals')
+    os.makedirs(d, exist_ok=True)
+    if not items:
+        return {}
+    nfiles = max(1, min(len(items), 2 * jobs))
+    files = []
+    for f in range(nfiles):
+        grp = items[f::nfiles]
+        fnm = os.path.join(d, 'xg_%d.v' % f)
+        with open(fnm, 'w') as fh:
+            fh.write(XHEADER)
+            for k, c in grp:
+                fh.write(xgoal(k, c))
+        files.append((fnm, [k for k, _ in grp]))
+
+    def one(arg):
+        fnm, ks = arg
+        rc, out = core.coqc(fnm, timeout=1200)
+        r = {}
+        for line in out.split('\n'):
+            line = line.strip()
+            if line.startswith('C13OK '):
+                r[int(line.split()[1])] = 'ok'
+            elif line.startswith('C13FAIL '):
+                r[int(line.split()[1])] = 'fail'
+        for k in ks:
+            r.setdefault(k, 'error: ' + out[-400:])
+        if rc != 0:           # a file that does not check certifies nothing
+            r = {k: ('error: ' + out[-400:]) if v == 'ok' else v for k, v in r.items()}
+        return r
+    res = {}
+    with ThreadPoolExecutor(max_workers=jobs) as ex:
+        for r in ex.map(one, files):
+            res.update(r)
+    return res
+
+
+# ----------------------------------------------------------------------------------------------
 def rate_float(cm, x):
     out = []
     for cells in cm['bins']:
         r = 0.0
-        for nom, hs, idx in cells:
+        for nom, hs, idx, ns in cells:
             t = float(nom)
             for code, lo, hi, i in hs:
                 t += delta_float(code, float(lo), float(nom), float(hi), x[i])
             for i in idx:
                 t *= x[i]
+            for ncode, lo, hi, i in ns:
+                t *= nfac_float(ncode, float(lo), float(hi), x[i])
             r += t
         out.append(r)
     return out
+
+
+def nfac_float(ncode, lo, hi, a):
+    if ncode == 'code1' or abs(a) >= 1:
+        return hi ** a if a > 0 else lo ** (-a)
+    c = [float(v) for v in code4_coefficients(Fraction(lo), Fraction(hi))]
+    return 1 + sum(c[j] * a ** (j + 1) for j in range(6))
 
 
 def delta_float(code, lo, nom, hi, a):
@@ -191,6 +550,9 @@ def delta_float(code, lo, nom, hi, a):
 
 
 ALPHA_POINTS = [0.0, 1.0, -1.0, 0.5, -0.5, 2.0, -2.0, 1.5, -1.25, 1e-9, -1e-9, 1.0000001, -0.9999999]
+# regimes a normsys parameter is put into, in turn (the parameter is free in that case): every regime and every breakpoint
+NS_FOCUS = {'code4': [1.0, -1.0, 0.0, 0.5, -0.25, 1.75, -2.5, 1.0, -1.0, 0.9999999999999999, -1.0000000000000002, 0.0],
+            'code1': [0.0, 1.0, -1.0, 0.5, -0.75, 2.25, -1.5, 0.0, 1e-300, -1e-9]}
 
 
 def gen_point(rng, cm, k):
@@ -223,19 +585,44 @@ def gen_data(rng, cm, x):
     return main + aux
 
 
-def make_case(rng, k):
+def make_case(rng, k, family='plain'):
+    """family: 'plain' (no transcendental piece, POI mu), 'binwise' (POI-less, bin-wise parameters only), 'code1' / 'code4'
+    (normsys factors with that interpolation code)"""
     import pyhf
     pyhf.set_backend('numpy')
-    for _ in range(100):
-        spec, code = gen_spec(rng)
-        pdf = build_pdf(spec, code)
-        cm = compile_model(spec, code, pdf)
+    for _ in range(200):
+        ncode, poi = 'code4', 'mu'
+        if family == 'binwise':
+            spec, code = gen_spec_binwise(rng)
+            poi = None
+        elif family in ('code1', 'code4'):
+            ncode = family
+            spec, code = gen_spec_ns(rng, ncode)
+        else:
+            spec, code = gen_spec(rng)
+        pdf = build_pdf(spec, code, ncode, poi)
+        cm = compile_model(spec, code, pdf, ncode)
         x = gen_point(rng, cm, k)
         mask = [rng.random() < 0.25 for _ in range(cm['npars'])]
-        if cm['alphas'] and rng.random() < 0.7:          # sit exactly on a breakpoint with a free alpha: 0 for code0, +-1 otherwise
+        focus = None
+        if family in ('code1', 'code4'):
+            if not cm['nalphas']:
+                continue
+            a0 = cm['nalphas'][k % len(cm['nalphas'])]
+            sched = NS_FOCUS[ncode]
+            x[a0] = sched[(k // 2) % len(sched)]
+            mask[a0] = False
+            focus = a0
+            if rng.random() < 0.5:           # a second interpolation parameter (histosys or normsys) on a breakpoint of its own code
+                a1 = rng.choice(cm['alphas'])
+                if a1 != a0:
+                    x[a1] = rng.choice([0.0, 1.0, -1.0])
+                    mask[a1] = False
+        elif cm['alphas'] and rng.random() < 0.7:          # sit exactly on a breakpoint with a free alpha: 0 for code0, +-1 otherwise
             a0 = rng.choice(cm['alphas'])
             x[a0] = 0.0 if code == 'code0' else rng.choice([1.0, -1.0])
             mask[a0] = False
+            focus = a0
         if min(rate_float(cm, x)) <= 1e-3:
             continue
         data = gen_data(rng, cm, x)
@@ -243,13 +630,14 @@ def make_case(rng, k):
             mask[rng.randrange(len(mask))] = False
         if rng.random() < 0.3:
             mask = [False] * cm['npars']
-        return dict(id='g%d' % k, spec=spec, code=code, cm=cm, npars=cm['npars'], x=x, data=data, mask=mask, par_names=list(pdf.config.par_names),
+        return dict(id='%s%d' % ({'plain': 'g', 'binwise': 'b', 'code1': 'n1_', 'code4': 'n4_'}[family], k), family=family, spec=spec, code=code,
+                    ncode=ncode, poi=poi, cm=cm, npars=cm['npars'], x=x, data=data, mask=mask, focus=focus, par_names=list(pdf.config.par_names),
                     bounds=[[float(a), float(b)] for a, b in pdf.config.suggested_bounds()])
     raise RuntimeError('could not generate a case')
 
 
 def pub(case):
-    return {k: v for k, v in case.items() if k != 'cm'}
+    return {k: v for k, v in case.items() if k not in ('cm', 'ref', '_cfg')}
 
 
 # ----------------------------------------------------------------------------------------------
@@ -259,7 +647,7 @@ def run_impl(case, backend, do_stitch):
     import pyhf
     from pyhf.optimize.common import shim
     pyhf.set_backend(backend, 'scipy', precision='64b')
-    pdf = build_pdf(case['spec'], case['code'])
+    pdf = case_pdf(case)
     tl = pyhf.tensorlib
     x, mask = case['x'], case['mask']
     fixed_vals = [(i, x[i]) for i in range(case['npars']) if mask[i]]
@@ -285,16 +673,19 @@ def run_impl(case, backend, do_stitch):
 
 
 def finite_difference(case, j, h=1e-6):
-    """central difference of pyhf's own numpy twice_nll (diagnostic only, goes into the replay)"""
+    """central and one-sided differences of pyhf's own numpy twice_nll (diagnostic only, goes into the replay)"""
     import numpy as np
     import pyhf
     pyhf.set_backend('numpy')
-    pdf = build_pdf(case['spec'], case['code'])
-    xp, xm = list(case['x']), list(case['x'])
-    xp[j] += h
-    xm[j] -= h
-    with np.errstate(all='ignore'):
-        return float((pyhf.infer.mle.twice_nll(xp, np.asarray(case['data']), pdf)[0] - pyhf.infer.mle.twice_nll(xm, np.asarray(case['data']), pdf)[0]) / (2 * h))
+    pdf = case_pdf(case)
+
+    def f(t):
+        xx = list(case['x'])
+        xx[j] += t
+        with np.errstate(all='ignore'):
+            return float(pyhf.infer.mle.twice_nll(xx, np.asarray(case['data']), pdf)[0])
+    f0 = f(0.0)
+    return dict(central=(f(h) - f(-h)) / (2 * h), left=(f0 - f(-h)) / h, right=(f(h) - f0) / h)
 
 
 def replay_body(case, rec, **kw):
@@ -306,65 +697,139 @@ def replay_body(case, rec, **kw):
 
 def load_corpus():
     import glob
-    import os
     return [json.load(open(fn)) for fn in sorted(glob.glob(os.path.join(core.VERIF, 'corpus', 'C13', '*.json')))]
+
+
+def regime_of(a):
+    return 'kink0' if a == 0 else 'at+1' if a == 1 else 'at-1' if a == -1 else 'inner' if -1 < a < 1 else 'above' if a > 1 else 'below'
+
+
+def configs_for(ctx, k, c):
+    """(backend, do_stitch) pairs of one case"""
+    if c.get('_cfg') is not None:
+        return list(c['_cfg'])
+    if not ctx.quick or c['family'] == 'binwise':
+        return [(be, s) for be in BACKENDS for s in (False, True)]
+    out = []
+    for bi, be in enumerate(BACKENDS):
+        if be == 'tensorflow' and k % 3 and c['family'] == 'plain':
+            continue
+        out.append((be, bool((k + bi) % 2)))
+    return out
 
 
 def run(ctx):
     rng = ctx.rng
     tie = None
-    ok, txt = core.prove(ctx)
-    if not ok:
-        tie = 'proof obligations of props/C13.v no longer check: ' + txt[-1200:]
+    # the interpolation theorems are about the definitions translated from the current source: regenerate them first
+    try:
+        from harness.props import c03
+        c03.extract(ctx)
+    except facts.TieBroken as e:
+        tie = 'translation of the scalar reference interpolators failed: %s' % e
+    # bring the libraries the case files import up to date before anything is evaluated against them
+    core.coq_make(['Grad.vo', 'GradInterp.vo'], timeout=1500)
+    proof = {}
+
+    def prove_bg():
+        try:
+            proof['r'] = core.prove(ctx)
+        except Exception as e:      # pragma: no cover
+            proof['r'] = (False, 'prove crashed: %r' % e)
+    th_prove = threading.Thread(target=prove_bg)
+    th_prove.start()
     ctx.trusted += ['jax / torch / tensorflow automatic differentiation are modelled by their outputs',
-                    'harness/props/c13.py: compile_model (own rate model of the normfactor/shapefactor/shapesys/staterror/lumi/histosys family; '
+                    'harness/props/c13.py: compile_model (own rate model of the normfactor/shapefactor/shapesys/staterror/lumi/histosys/normsys family; '
                     'parameter and auxdata layout from the public ModelConfig); its rates are validated against expected_actualdata on every case',
-                    'exact gradient = FitRate.bin_rate evaluated at dual numbers over Qc (Grad.model_grad); the dual instance is proved to compute '
-                    'derivatives for + - * / expressions over R (C13_dual_is_derivative); the regime selection of the interpolation codes by '
-                    'comparisons on the value is validated by correspondence, derivative formulas of the codes themselves belong to C03']
-    ctx.assumptions += ['models without transcendental modifier pieces (no normsys, no histosys code1/code4): the gradient is rational',
-                        'at the kink of code0 (alpha = 0) the one-sided derivative of the branch selected by `alpha > 0` is demanded']
+                    'models without normsys: exact gradient = FitRate.bin_rate evaluated at dual numbers over Qc (Grad.model_grad); over R that text is '
+                    'proved to be the derivative of 2*nll wherever it exists and its left derivative at the kinks of code 0 '
+                    '(C13_grad_coord_is_derivative / C13_grad_coord_left_derivative), the histosys pieces being the codes translated from the source',
+                    'models with normsys: mpmath (45 digits) only proposes the reference gradient and rates; every case is certified against the real '
+                    'instance of the Coq model (GradInterp.xgrad, xrate_dual: C13_xgrad_is_derivative / C13_xgrad_left_derivative) by interval goals, '
+                    'relative tolerance %g; an uncertified case is reported as a broken tie' % CERT_RTOL,
+                    'harness/props/c03_translate.py (python ast -> Gallina for the scalar reference interpolators the derivative theorems are about)']
+    ctx.assumptions += ['exact rational gradients for models without transcendental modifier pieces; interval-certified references for normsys (code1, code4 with pyhf\'s alpha0 = 1)',
+                        'at the kinks of code0 / code1 (alpha = 0) no derivative exists: the one-sided (left) derivative of the branch selected by `alpha > 0` is demanded',
+                        '2*nll differs from twice_nll by a parameter-independent constant; rates are strictly positive at every generated point']
     cases = []
     import pyhf
     for body in load_corpus():
         c = body['case']
         pyhf.set_backend('numpy')
-        c['cm'] = compile_model(c['spec'], c['code'], build_pdf(c['spec'], c['code']))
+        c.setdefault('family', 'plain')
+        c['cm'] = compile_model(c['spec'], c['code'], case_pdf(c), c.get('ncode', 'code4'))
         c['_cfg'] = [tuple(body['config'])]
         cases.append(c)
-    ncase = ctx.n(40, 300)
-    cases += [make_case(rng, k) for k in range(ncase)]
+    nplain, nbin, nns = ctx.n(24, 220), ctx.n(6, 40), ctx.n(20, 120)
+    cases += [make_case(rng, k, 'plain') for k in range(nplain)]
+    cases += [make_case(rng, k, 'binwise') for k in range(nbin)]
+    cases += [make_case(rng, k, 'code4' if k % 5 < 3 else 'code1') for k in range(nns)]
     ctx.log('generated %d cases' % len(cases))
-    # exact gradients in Coq (started first: they do not depend on the implementation)
-    exprs = ['run_grad %s %s' % (coq_model(c['cm'], c['data']), core.qlist(c['x'])) for c in cases]
-    exact = None
-    try:
-        per = max(1, (len(exprs) + core.NCPU - 1) // core.NCPU)
-        res = core.coq_eval(ctx, 'grads', HEADER, exprs, shard=per, timeout=1200)
-        exact = [c05.parse(r) for r in res]
-    except core.CoqEvalError as e:
-        tie = tie or ('model evaluation failed: %s' % str(e)[-800:])
-    ctx.log('evaluated %d exact gradients in Coq' % len(exprs))
+    qidx = [k for k, c in enumerate(cases) if not c['cm']['nalphas']]
+    ridx = [k for k, c in enumerate(cases) if c['cm']['nalphas']]
+    exact = {}
+    coq = {}
+    jobs = max(2, core.NCPU // 2)
+
+    def qc_bg():
+        # exact gradients in Coq (they do not depend on the implementation)
+        try:
+            exprs = ['run_grad %s %s' % (coq_model(cases[k]['cm'], cases[k]['data']), core.qlist(cases[k]['x'])) for k in qidx]
+            per = max(1, (len(exprs) + jobs - 1) // jobs)
+            res = core.coq_eval(ctx, 'grads', HEADER, exprs, shard=per, timeout=1200, jobs=jobs)
+            for k, r in zip(qidx, res):
+                exact[k] = c05.parse(r)
+        except core.CoqEvalError as e:
+            coq['qc_error'] = 'model evaluation failed: %s' % str(e)[-800:]
+
+    def r_bg():
+        try:
+            for k in ridx:
+                g, rates = reference_gradient(cases[k]['cm'], cases[k]['data'], cases[k]['x'])
+                cases[k]['ref'] = ([mp_to_frac(v) for v in g], [mp_to_frac(v) for v in rates])
+                exact[k] = cases[k]['ref']
+            th_prove.join()                  # the goal files import GradInterp.vo
+            if proof['r'][0]:
+                coq['cert'] = run_xgoals(ctx, [(k, cases[k]) for k in ridx], jobs)
+            else:
+                coq['cert'] = {k: 'error: GradInterp does not build' for k in ridx}
+        except Exception as e:      # pragma: no cover
+            coq['r_error'] = 'reference / certification machinery failed: %r' % e
+    th_q = threading.Thread(target=qc_bg)
+    th_r = threading.Thread(target=r_bg)
+    th_q.start()
+    th_r.start()
     # implementation
     runs = []
     for be in BACKENDS:
         for k, c in enumerate(cases):
-            cfgs = c.get('_cfg')
-            if cfgs is None:
-                if ctx.quick and be == 'tensorflow' and k % 3:
-                    continue
-                stitches = [bool((k + BACKENDS.index(be)) % 2)] if ctx.quick else [False, True]
-                cfgs = [(be, s) for s in stitches]
-            for b2, ds in cfgs:
+            for b2, ds in configs_for(ctx, k, c):
                 if b2 == be:
                     runs.append((k, run_impl(c, be, ds)))
     ctx.log('ran %d gradient evaluations' % len(runs))
-    stats = dict(evaluations=len(runs), ok=0, components=0, by_backend={}, stitched=0, with_fixed=0, codes={}, alpha_regimes={}, errors={},
-                 max_rel_err=0.0, kink_points=0, rate_mismatch=0)
+    th_prove.join()
+    th_q.join()
+    th_r.join()
+    ok, txt = proof['r']
+    if not ok:
+        tie = tie or ('proof obligations of props/C13.v no longer check: ' + txt[-1200:])
+    for key in ('qc_error', 'r_error'):
+        if key in coq:
+            tie = tie or coq[key]
+    cert = coq.get('cert', {})
+    uncert = [k for k in ridx if cert.get(k) != 'ok']
+    if uncert and ok:
+        k = uncert[0]
+        tie = tie or ('reference gradient of case %s is not certified against GradInterp.xgrad (%s)' % (cases[k]['id'], str(cert.get(k))[:300]))
+    ctx.log('exact gradients: %d in Qc, %d interval-certified of %d normsys cases' % (len([k for k in qidx if k in exact]), len(ridx) - len(uncert), len(ridx)))
+    stats = dict(evaluations=len(runs), ok=0, components=0, by_backend={}, stitched=0, with_fixed=0, codes={}, ncodes={}, families={}, alpha_regimes={},
+                 normsys_regimes={}, errors={}, max_rel_err=0.0, rate_mismatch=0, interval_cases=len(ridx), interval_certified=len(ridx) - len(uncert),
+                 poi_less=0)
     distinct = set()
     found = False
     for k, rec in runs:
         c = cases[k]
+        cm = c['cm']
         if rec['status'] != 'ok':
             stats['errors'][rec['status']] = stats['errors'].get(rec['status'], 0) + 1
             ctx.violation('grad-path-raises:%s:%s' % (rec['backend'], rec['status']), 'value-and-gradient function raised %s: %s' % (rec['status'], rec.get('msg')),
@@ -375,11 +840,19 @@ def run(ctx):
         stats['by_backend'][rec['backend']] = stats['by_backend'].get(rec['backend'], 0) + 1
         stats['stitched'] += bool(rec['do_stitch'])
         stats['with_fixed'] += any(c['mask'])
-        stats['codes'][c['code']] = stats['codes'].get(c['code'], 0) + 1
-        for i in c['cm']['alphas']:
-            a = c['x'][i]
-            reg = 'kink0' if a == 0 else 'at+1' if a == 1 else 'at-1' if a == -1 else 'inner' if -1 < a < 1 else 'above' if a > 1 else 'below'
-            stats['alpha_regimes'][reg] = stats['alpha_regimes'].get(reg, 0) + 1
+        stats['poi_less'] += c.get('poi', 'mu') is None
+        stats['families'][c['family']] = stats['families'].get(c['family'], 0) + 1
+        if cm['alphas'] != cm['nalphas']:
+            stats['codes'][c['code']] = stats['codes'].get(c['code'], 0) + 1
+        for i in cm['alphas']:
+            reg = regime_of(c['x'][i])
+            if i in cm['nalphas']:
+                key = '%s:%s%s' % (cm['ncode'], reg, '' if c['mask'][i] else ':free')
+                stats['normsys_regimes'][key] = stats['normsys_regimes'].get(key, 0) + 1
+            else:
+                stats['alpha_regimes'][reg] = stats['alpha_regimes'].get(reg, 0) + 1
+        if cm['nalphas']:
+            stats['ncodes'][cm['ncode']] = stats['ncodes'].get(cm['ncode'], 0) + 1
         if not all(math.isfinite(v) for v in [rec['value'], rec['value_nograd']] + rec['grad']):
             ctx.violation('nonfinite:%s:stitch%d' % (rec['backend'], rec['do_stitch']), 'value-and-gradient function returned a non-finite number at a point with '
                           'strictly positive rates (value %r, plain path %r)' % (rec['value'], rec['value_nograd']), replay_body(c, rec))
@@ -390,7 +863,7 @@ def run(ctx):
             ctx.violation('grad-path-value:%s' % rec['backend'], 'objective from the gradient path %r differs from the plain path %r' % (rec['value'], rec['value_nograd']),
                           replay_body(c, rec, expected=rec['value_nograd']))
             found = True
-        if exact is None:
+        if k not in exact:
             continue
         g_exact, rates = exact[k]
         # own rate model validated against the implementation's expected rates (a mismatch is a broken tie, not a gradient bug)
@@ -417,32 +890,46 @@ def run(ctx):
                 bad.append((i, gi, float(ge)))
         if bad:
             i, gi, ge = bad[0]
-            kink = i in c['cm']['alphas'] and c['x'][i] in (0.0, 1.0, -1.0)
+            a = c['x'][i]
+            kink = i in cm['alphas'] and a in (0.0, 1.0, -1.0)
+            what_par = ('normsys(%s)' % cm['ncode']) if i in cm['nalphas'] else ('histosys(%s)' % c['code']) if i in cm['alphas'] else 'non-interpolation'
             fd = None
             try:
                 fd = finite_difference(c, i)
             except Exception:
                 pass
-            ctx.violation('gradient-wrong:%s:stitch%d%s' % (rec['backend'], rec['do_stitch'], ':breakpoint' if kink else ''),
-                          'd twice_nll / d %s = %r from the gradient path, exact derivative %r (%d of %d components off)' % (
-                              c['par_names'][i], gi, ge, len(bad), len(rec['grad'])),
-                          replay_body(c, rec, expected=[float(g_exact[j]) for j in rec['index']], bad_components=bad[:6], central_difference_numpy=fd,
-                                      theorem='C13_dual_is_derivative / C13_twice_nll_pois_chain / C13_stitched_gradient'))
+            if i in cm['nalphas'] and cm['ncode'] == 'code1' and a == 0.0 and all(j == i for j, _, _ in bad):
+                # the exponent |alpha| of the vectorised code1 is differentiated by the backend's abs rule at 0 instead of by the selected branch
+                sig = 'kink-code1-abs-gradient:%s' % rec['backend']
+            else:
+                sig = 'gradient-wrong:%s:stitch%d%s' % (rec['backend'], rec['do_stitch'], ':breakpoint' if kink else '')
+            ctx.violation(sig,
+                          'd twice_nll / d %s = %r from the gradient path on %s (do_stitch=%s), %s %r (%d of %d components off); %s parameter at %r' % (
+                              c['par_names'][i], gi, rec['backend'], rec['do_stitch'],
+                              'left derivative (branch selected by `alpha > 0` at the kink)' if (kink and a == 0.0) else 'exact derivative', ge, len(bad), len(rec['grad']),
+                              what_par, a),
+                          replay_body(c, rec, expected=[float(g_exact[j]) for j in rec['index']], bad_components=bad[:6], differences_numpy=fd,
+                                      certified=(cert.get(k) == 'ok') if k in ridx else 'exact (Qc)',
+                                      theorem='C13_xgrad_is_derivative / C13_xgrad_left_derivative' if k in ridx else
+                                      'C13_grad_coord_is_derivative / C13_grad_coord_left_derivative / C13_stitched_gradient'))
             found = True
-        else:
+        elif k in qidx or cert.get(k) == 'ok':
             distinct.add(json.dumps([c['id'], rec['backend'], rec['do_stitch']]))
     if tie and not found and not ctx.violations:
         ctx.violation('tie-broken', tie[:300], dict(kind='tie', detail=tie, theorem='props/C13.v'), nofail=True)
-    ex = next(((k, r) for k, r in runs if r['status'] == 'ok'), None)
+    ex = next(((k, r) for k, r in runs if r['status'] == 'ok' and k in exact), None)
+    exn = next(((k, r) for k, r in runs if r['status'] == 'ok' and k in ridx and k in exact), None)
     ctx.coverage.update(
         evaluations=len(runs), distinct_nontrivial=len(distinct),
-        rule='cases: random models of the normfactor/shapefactor/shapesys/staterror/lumi/histosys(code0|code2|code4p) family (1-2 channels, 1-4 bins, '
-             '2-3 samples, products of factors allowed), parameter points with alphas in every regime and on -1, 0, 1, data incl. zeros and non-integers, '
-             'random fixed masks; evaluated on jax/pytorch/tensorflow, stitched or not. non-trivial = every gradient component within 1e-7 of the exact '
-             'rational derivative (Coq, dual numbers over Qc) and the value equal to the non-grad path; distinct by (case, backend, stitch)',
-        tolerances=dict(gradient_rel=GRAD_RTOL, value_rel=VALUE_RTOL), stats=stats,
-        samples=[dict(case=pub(cases[ex[0]]), impl={k: ex[1].get(k) for k in ('backend', 'do_stitch', 'value', 'grad', 'index')},
-                      exact=[float(g) for g in exact[ex[0]][0]] if exact else None)] if ex else [])
+        rule='cases: random models of the normfactor/shapefactor/shapesys/staterror/lumi/histosys(code0|code2|code4p)/normsys(code1|code4) family (1-2 channels, '
+             '1-4 bins, 1-3 samples, products of factors allowed; POI-less models with bin-wise parameters only), parameter points with alphas in every '
+             'regime and exactly on -1, 0, 1 (normsys parameters are put in turn on every breakpoint and into every regime, free), data incl. zeros and '
+             'non-integers, random fixed masks; evaluated on jax/pytorch/tensorflow, stitched or not. non-trivial = every gradient component within 1e-7 of '
+             'the exact derivative (Qc duals, or interval-certified reference for normsys models) and the value equal to the non-grad path; distinct by '
+             '(case, backend, stitch)',
+        tolerances=dict(gradient_rel=GRAD_RTOL, value_rel=VALUE_RTOL, certification_rel=CERT_RTOL), stats=stats,
+        samples=[dict(case=pub(cases[e[0]]), impl={k: e[1].get(k) for k in ('backend', 'do_stitch', 'value', 'grad', 'index')},
+                      exact=[float(g) for g in exact[e[0]][0]]) for e in (ex, exn) if e])
 
 
 def replay(body):
@@ -452,7 +939,6 @@ def replay(body):
     import pyhf
     c = body['case']
     pyhf.set_backend('numpy')
-    c['cm'] = compile_model(c['spec'], c['code'], build_pdf(c['spec'], c['code']))
     rec = run_impl(c, body['config'][0], body['config'][1])
     print(json.dumps({k: rec.get(k) for k in ('status', 'msg', 'value', 'value_nograd', 'grad', 'index')}, indent=1))
     print('expected (exact) at detection:', body.get('expected'))
